@@ -236,7 +236,7 @@ def extra_rules(prop: str, base: str) -> str:
     more = [r for r in rules if r["rule"] not in named and not any(r["rule"].startswith(n + "-") or n.startswith(r["rule"]) for n in named)]
     if not more:
         return ""
-    return " Further structural clauses decided by rules added after the third and fourth seeding rounds (each a necessary condition, see DESIGN.md 0.6c / 0.6d): " + "; ".join(
+    return " Further structural clauses decided by rules added in the later seeding rounds (each a necessary condition, see DESIGN.md 0.6c - 0.6j): " + "; ".join(
         f"({r['rule']}) {r['title']}" for r in more) + "."
 
 
@@ -254,7 +254,7 @@ def main() -> None:
                 "evidence_file": f"/verif/evidence/{p}.json",
                 "replay_cmd_template": "/venv/bin/python -m sa.run --replay {path}",
                 "engine": "sa",
-                "level_claimed": {"category": "other", "text": c["text"] + extra_rules(p, c["text"]), "design_ref": c["design_ref"] + "; DESIGN.md sections 0.4b, 0.6c, 0.6d"},
+                "level_claimed": {"category": "other", "text": c["text"] + extra_rules(p, c["text"]), "design_ref": c["design_ref"] + "; DESIGN.md sections 0.4b, 0.6c - 0.6j"},
                 "level_note": c.get("note", BASE_NOTE),
                 "technique": c["technique"],
             })
